@@ -60,16 +60,16 @@ def run_cases(wc, pid, cases, timeout=900, sub=None):
     res = [None] * len(cases)
     for line in dout.split("\n"):
         parts = line.split("\t")
-        if len(parts) != 3:
+        if len(parts) != 4:
             continue
         try:
             i = int(parts[0])
         except ValueError:
             continue
-        res[i] = (obs[i] if obs[i] is not None else "MISSING", parts[1], parts[2])
+        res[i] = (obs[i] if obs[i] is not None else "MISSING", parts[1], parts[2], parts[3] == "same")
     for i in range(len(cases)):
         if res[i] is None:
-            res[i] = (obs[i] or "MISSING", "DRIVER-MISSING", "driver-missing")
+            res[i] = (obs[i] or "MISSING", "DRIVER-MISSING", "driver-missing", False)
     return res
 
 
@@ -115,13 +115,13 @@ def generic_t1(chk, wc, mod, tier, seed):
         res = run_cases(wc, pid, cases, sub=sub, timeout=getattr(mod, "TIMEOUT", {}).get(tier, 1500))
         vlib.log("%s%s: %d cases in %.1fs" % (pid, "/" + sub if sub else "", len(cases), time.time() - t0))
         nfail = 0
-        for c, (obs, model, oracle) in zip(cases, res):
+        for c, (obs, model, oracle, same) in zip(cases, res):
             nt = mod.nontrivial(c, obs) if hasattr(mod, "nontrivial") else True
             chk.count_case(c, nt)
             chk.cov["traces_validated_against_impl"] += 1
             chk.sample({"case": c[:400], "impl": obs[:300], "oracle": oracle})
             bad_oracle = oracle != "ok"
-            bad_tie = (not bad_oracle) and getattr(mod, "EXACT", True) and model != obs
+            bad_tie = (not bad_oracle) and not same
             if not (bad_oracle or bad_tie):
                 continue
             nfail += 1
@@ -132,10 +132,10 @@ def generic_t1(chk, wc, mod, tier, seed):
                 if bad_oracle:
                     small = shrink(wc, pid, c, mod.shrink_candidates, lambda r: r[2] != "ok", sub=sub)
                 else:
-                    small = shrink(wc, pid, c, mod.shrink_candidates, lambda r: r[2] == "ok" and r[1] != r[0], sub=sub)
+                    small = shrink(wc, pid, c, mod.shrink_candidates, lambda r: r[2] == "ok" and not r[3], sub=sub)
             else:
                 small = c
-            (o2, m2, or2) = run_cases(wc, pid, [small], sub=sub)[0]
+            (o2, m2, or2, _s2) = run_cases(wc, pid, [small], sub=sub)[0]
             body = {
                 "sub": sub,
                 "case": small,
@@ -178,12 +178,12 @@ def replay(mod, path):
     with vlib.WorkCopy(mod.PID) as wc:
         wc.build()
         wc.build_harness()
-        (o, m, orc) = run_cases(wc, mod.PID, [d["case"]], sub=d.get("sub"))[0]
+        (o, m, orc, same) = run_cases(wc, mod.PID, [d["case"]], sub=d.get("sub"))[0]
     print("case   :", d["case"])
     print("impl   :", o)
     print("model  :", m)
     print("oracle :", orc)
-    if orc != "ok" or (getattr(mod, "EXACT", True) and o != m):
+    if orc != "ok" or not same:
         print("VIOLATION property=%s replay=%s" % (mod.PID, path))
         return 1
     print("OK (the replayed case no longer fails)")
